@@ -483,8 +483,12 @@ class Hist:
             if v <= n:
                 del self.versions[v]
         if 0 < self.base <= n and r.random() < 0.7:
+            self.after_loaded_version_deleted()
+
+    def after_loaded_version_deleted(self):
             # the version the tree object was loaded at has just been deleted: it is gone for every query, also
             # for the ones that could be answered from what the object still holds in memory
+            r = self.r
             b = self.base
             self.emit("vexists %d" % b)
             self.emit("imm %d hash" % b)
@@ -610,6 +614,16 @@ class Hist:
         self.base = v
         self.working = dict(self.versions[v])
         self.read_ops(2)
+        if r.random() < 0.12:
+            # ... and the history is pruned past the version the object stands on
+            n = r.randint(v, vs[-1] - 1)
+            self.emit("prune %d" % n)
+            self.pruned_ever = True
+            for u in list(self.versions):
+                if u <= n:
+                    del self.versions[u]
+            self.after_loaded_version_deleted()
+            return
         nxt = v + 1
         if nxt in self.versions and nxt in self.wlog and r.random() < self.p.p_save_existing:
             for op in self.wlog[nxt]:
